@@ -637,20 +637,21 @@ APNRecord(e, inner, outer) ==
 APNWf(pn) ==
   /\ \A i \in 1..Len(pn.exprs) : WfExpr(pn.exprs[i])
   /\ \A b \in 1..Len(pn.bundles) : \A i \in 1..Len(pn.bundles[b].exprs) : WfExpr(pn.bundles[b].exprs[i])
-ReadAPN(pn) ==
+ReadAPNS(pn, own) ==
   LET top == PNScope(pn.decls)
       none == [pfx |-> <<>>, dflt |-> NONE]
   IN [recs |-> [i \in 1..Len(pn.exprs) |-> APNRecord(pn.exprs[i], top, none)],
       bundles |-> [b \in 1..Len(pn.bundles) |->
                      LET sc == PNScope(pn.bundles[b].decls) IN
-                     [id |-> PNName(pn.bundles[b].id, top, none),
+                     [id |-> IF own THEN PNName(pn.bundles[b].id, sc, top) ELSE PNName(pn.bundles[b].id, top, none),
                       recs |-> [i \in 1..Len(pn.bundles[b].exprs) |-> APNRecord(pn.bundles[b].exprs[i], sc, top)]]]]
+ReadAPN(pn) == ReadAPNS(pn, FALSE)
 
 C06_parses(step) == Cl("C06_parses", IsRT(step, "provn"), step.exc = "none")
 C06_grammar(step) == Cl("C06_grammar", IsRT(step, "provn") /\ step.exc = "none", WfProvN(step.ast))
 C06_denotes(step) ==
   Cl("C06_denotes", IsRT(step, "provn") /\ step.exc = "none" /\ WfProvN(step.ast),
-     ReadBagEq(SpecReadProvN(step.ast), step.src))
+     ReadBagEq(SpecReadProvN(step.ast), step.src) \/ ReadBagEq(SpecReadProvNS(step.ast, TRUE), step.src))
 C06Clauses(step) == IF IsRT(step, "provn") THEN {C06_parses(step), C06_grammar(step), C06_denotes(step)} ELSE {}
 (* C07 — PROV-O (TriG) round trip preserves the unified content of expressible documents; *)
 (* set based per container because RDF is a set of triples                                 *)
